@@ -34,9 +34,11 @@ class Pair:
             elif op == 'append_multiple':
                 want = ('ok', None, K.m_append_multiple(L, list(args[0]), self.drop_at))
             elif op == 'delete':
-                if not (0 <= args[0] < len(L)):
+                if not (-len(L) <= args[0] < len(L)):
                     return None
                 want = ('ok', None, K.m_delete(L, args[0]))
+            elif op == 'setslice':
+                want = ('ok', None, K.m_setslice(L, args[0], args[1], list(args[2])))
             elif op == 'getitem':
                 want = ('ok', K.m_getitem(L, args[0]), L)
             elif op == 'getslice':
@@ -68,6 +70,9 @@ class Pair:
                 got = a[args[0]:args[1]]
             elif op == 'setitem':
                 a[args[0]] = args[1]
+                got = None
+            elif op == 'setslice':
+                a[args[0]:args[1]] = np.array(args[2], dtype=float)
                 got = None
             elif op == 'last':
                 got = a.get_last_item()
@@ -106,7 +111,7 @@ def search(seed, budget=6000, want_op=None):
         drop = rng.choice([None, None, 2, 3, 4, 6])
         p = Pair(bucket, drop)
         for _ in range(rng.randint(1, 14)):
-            op = rng.choice(['append', 'append', 'append', 'delete', 'getitem', 'getslice', 'setitem', 'last', 'past',
+            op = rng.choice(['append', 'append', 'append', 'delete', 'getitem', 'getslice', 'setitem', 'setslice', 'last', 'past',
                              'append_multiple', 'flush'] + ([want_op] * 4 if want_op else []))
             n = len(p.L)
             if op == 'append':
@@ -118,7 +123,11 @@ def search(seed, budget=6000, want_op=None):
             elif op == 'delete':
                 if n == 0 or drop is not None:
                     continue
-                d = p.step(op, rng.randrange(n))
+                d = p.step(op, rng.randrange(-n, n))
+            elif op == 'setslice':
+                lo, hi = rng.choice([None] + list(range(-n - 2, n + 3))), rng.choice([None] + list(range(-n - 2, n + 3)))
+                k = len(p.L[lo:hi])       # equal-length assignment
+                d = p.step(op, lo, hi, [p.fresh() for _ in range(k)])
             elif op == 'getitem':
                 d = p.step(op, rng.randint(-n - 2, n + 1))
             elif op == 'getslice':
@@ -140,7 +149,7 @@ def replay(pl):
     ob = pl['obligation']
     op = ob.split('.')[0]
     opmap = {'getslice': 'getslice', 'getitem': 'getitem', 'append': 'append', 'append_multiple': 'append_multiple',
-             'delete': 'delete', 'setitem': 'setitem', 'setslice': 'setitem', 'get_last_item': 'last',
+             'delete': 'delete', 'setitem': 'setitem', 'setslice': 'setslice', 'get_last_item': 'last',
              'get_past_item': 'past', 'flush': 'flush', 'len': 'append', 'init': 'append'}
     d = search(pl.get('seed', 0), want_op=opmap.get(op))
     if d:
